@@ -61,13 +61,13 @@ func (p *copyProp) ID() string { return p.id }
 func (p *copyProp) Rule() string {
 	switch p.id {
 	case "C01":
-		return "scenario = random Merkle DAG (<=25 nodes) + root + link-closed pre-populated destination + store pairing + Concurrency + API, executed under one seeded schedule; non-trivial = at least two tasks were simultaneously schedulable at some step; distinct = distinct (schedule trace hash, scenario) pairs"
+		return "scenario = random Merkle DAG (<=25 nodes) + root + link-closed pre-populated destination + store pairing + Concurrency + API, executed under one seeded schedule; non-trivial = at least 3 tasks ran and at least 3 scheduling steps had two or more candidates; distinct = distinct event-trace hashes (task ids, yield sites, seam events with node ids)"
 	case "C02":
-		return "scenario as C01 plus 1-3 faults (error before/after the effect, or cancellation) placed on operations the fault-free execution performed; each scenario is executed fault-free, with faults, and re-run without faults; non-trivial = a fault fired or >=2 tasks were schedulable; distinct = distinct (trace hash, fault plan, scenario)"
+		return "scenario as C01 plus 1-3 faults (error before/after the effect, or cancellation) placed on operations the fault-free execution performed; each scenario is executed fault-free, with faults, and re-run without faults; non-trivial = a fault fired, or >=3 tasks and >=3 real scheduling choices; distinct = distinct (event-trace hash, fault plan)"
 	case "C03":
-		return "scenario = DAG with referrers/indexes + start node + Depth + optional artifact-type/annotation filter + source kind, under one seeded schedule; non-trivial = the start node has at least one ancestor or >=2 tasks were schedulable; distinct = distinct (trace hash, scenario)"
+		return "scenario = DAG with referrers/indexes + start node + Depth + optional artifact-type/annotation filter + source kind, under one seeded schedule; non-trivial = an ancestor had to be followed, or >=3 tasks and >=3 real scheduling choices; distinct = distinct event-trace hashes"
 	default:
-		return "scenario as C01/C03 with per-operation simulated latencies, recording callbacks and optional callback fault; non-trivial = >=2 tasks schedulable at some step; distinct = distinct (trace hash, scenario)"
+		return "scenario as C01/C03 with per-operation simulated latencies, recording callbacks and optional callback fault; non-trivial = >=3 tasks and >=3 real scheduling choices, or a callback fault fired; distinct = distinct (event-trace hash, fault plan)"
 	}
 }
 
@@ -691,7 +691,6 @@ func (p *copyProp) Run(rc *RunCtx, sc *Scenario) *RunInfo {
 		return info
 	}
 	g := cp.Graph.Build()
-	info.CaseHash = hashJSON(sc.Params)
 	cfg := sc.simConfig()
 
 	var v *Verdict
